@@ -1,5 +1,5 @@
 """C20 -- the control-flow graph is structurally well formed."""
-from lib import common
+from lib import common, e2e
 from checks import cfgcommon as C
 
 TRUSTED = [
@@ -126,6 +126,29 @@ def check(run):
                 c["bad"] = bad
         if len(run.samples) < 4:
             run.samples.append(dict(code=c["code"].hex(), model_initial=(m0 or "")[:300], impl_refined_edges=[f"{a} -> {b}" for a, b in c["dot1"][1]][:10]))
+    # the user-facing binary: `ecfg` (clap, InputSource, main) must print the graph the library renders
+    okb, outb = e2e.build_bins(["ecfg"])
+    if not okb:
+        run.violation_unproved("build of the ecfg binary", outb[-2000:])
+    else:
+        sc = e2e.Scratch()
+        try:
+            sub = [c for c in cases if "dot1" in c and c["code"]][:(40 if run.tier == "thorough" else 12)]
+            for i, c in enumerate(sub):
+                mode = ["code", "hex", "bin"][i % 3]
+                args = (["-c", "0x" + c["code"].hex()] if mode == "code" else
+                        ["--hex-file", sc.file(c["code"].hex(), "hex")] if mode == "hex" else ["--bin-file", sc.file(c["code"], "bin")])
+                rc_e, out_e = e2e.run_bin("ecfg", args, timeout=300)
+                got = C.parse_dot(out_e) if rc_e == 0 else None
+                if got is None or sorted(got[0]) != sorted(c["dot1"][0]) or sorted(got[1]) != sorted(c["dot1"][1]):
+                    found += 1
+                    if found <= 3:
+                        run.violation(dict(property="C20", code=c["code"].hex(), via=f"ecfg binary ({mode})", rc=rc_e, problems=["ecfg does not print the graph ControlFlowGraph::render gives for the same code"],
+                                           got=(out_e or "")[:600], replay=f".cache/target/debug/ecfg -c 0x{c['code'].hex()}"))
+            run.corr["cases"] += len(sub)
+            dist["ecfg-binary"] = len(sub)
+        finally:
+            sc.cleanup()
     run.corr["distinct"] = len(set(c["code"] for c in cases))
     run.corr["disagreements"] = dis
     run.corr["rule"] = ("random bytecode of 1-5 blocks (jumpdest-headed or not) ending in jump/jumpi/stop/return/revert/invalid/selfdestruct/fall-through, with constant, off-by-one, "
